@@ -472,6 +472,14 @@ func (x *Exec) binop(st *State, in *ssa.BinOp, a, b AV) AV {
 		}
 		ka, kb := a.avKey(), b.avKey()
 		if in.Op == token.EQL || in.Op == token.NEQ {
+			// comparison of two booleans the path can already decide: (p == nil) != (q == nil)
+			if isBoolAV(a) && isBoolAV(b) {
+				va, oka := x.decide(st, a)
+				vb, okb := x.decide(st, b)
+				if oka && okb {
+					return Konst{V: constant.MakeBool((va == vb) == (in.Op == token.EQL)), T: in.Type()}
+				}
+			}
 			if v, ok := staticEq(a, b); ok {
 				return Konst{V: constant.MakeBool(v == (in.Op == token.EQL)), T: in.Type()}
 			}
@@ -530,6 +538,24 @@ func (x *Exec) binop(st *State, in *ssa.BinOp, a, b AV) AV {
 		}
 	}
 	return Num{psym("(" + an.P.key() + in.Op.String() + bn.P.key() + ")")}
+}
+
+func isBoolAV(v AV) bool {
+	switch c := v.(type) {
+	case Cond:
+		return true
+	case Konst:
+		return c.V != nil && c.V.Kind() == constant.Bool
+	}
+	return false
+}
+
+// eqKey is the fact key of the comparison "a == b" of two non-numeric values.
+func eqKey(a, b string) string {
+	if a > b {
+		a, b = b, a
+	}
+	return a + "==" + b
 }
 
 // matchMminusMod recognises m - mod_m(x).
